@@ -73,7 +73,8 @@ Inductive result :=
 | ROk
 | RCred (c : cred)
 | RErrFormat          (* config.ErrInvalidConfigFormat *)
-| RErrBadCred.        (* credentials.ErrBadCredentialFormat *)
+| RErrBadCred         (* credentials.ErrBadCredentialFormat *)
+| RErrPutDisabled.    (* credentials.ErrPlaintextPutDisabled *)
 
 Inductive op :=
 | Get (a : str)
@@ -230,6 +231,20 @@ Section Model.
     match h with
     | [] => []
     | o :: h' => let '(st', r) := step st o in (r, st_file st') :: run_obs st' h'
+    end.
+
+  (* FileStore.Put/Get/Delete with the DisablePut switch (checked before the
+     credential format) *)
+  Definition fs_step (disable_put : bool) (st : state) (o : op) : state * result :=
+    match o with
+    | Put _ _ => if disable_put then (st, RErrPutDisabled) else step st o
+    | _ => step st o
+    end.
+
+  Fixpoint fs_run (disable_put : bool) (st : state) (h : list op) : state :=
+    match h with
+    | [] => st
+    | o :: h' => fs_run disable_put (fst (fs_step disable_put st o)) h'
     end.
 
   (* does the operation write the file? *)
